@@ -72,13 +72,18 @@ proof fn lemma_splitn_len(s: Seq<char>, n: nat, sep: char)
         lemma_splitn_len(s.subrange(first_sep(s, sep) + 1, s.len() as int), (n - 1) as nat, sep);
     }
 }
-/// the first piece of a non-empty split is the text before the first separator: EMPTY for an empty line and for a
-/// line that starts with the separator (what the "empty chrom ends the stream" mutant turns into end-of-input)
-proof fn lemma_splitn_first(s: Seq<char>, n: nat, sep: char)
-    requires n >= 1,
-    ensures
-        s.len() == 0 ==> splitn_spec(s, n, sep)[0].len() == 0,
-        s.len() > 0 && s[0] == sep && n >= 2 ==> splitn_spec(s, n, sep)[0].len() == 0,
+/// a text without the separator is ONE piece (itself) -- the empty text included
+proof fn lemma_splitn_no_sep(s: Seq<char>, n: nat, sep: char)
+    requires n >= 1, !has_sep(s, sep),
+    ensures splitn_spec(s, n, sep) == seq![s],
+{
+    reveal(splitn_spec);
+    lemma_first_sep(s, sep);
+}
+/// a text that starts with the separator has an EMPTY first piece
+proof fn lemma_splitn_leading_sep(s: Seq<char>, n: nat, sep: char)
+    requires n >= 2, s.len() > 0, s[0] == sep,
+    ensures splitn_spec(s, n, sep).len() >= 1, splitn_spec(s, n, sep)[0].len() == 0,
 {
     reveal(splitn_spec);
 }
@@ -332,6 +337,31 @@ proof fn lemma_line_is_its_columns(line: Seq<char>)
     lemma_splitn_lossless(trim_end_spec(line), 5, '\t');
     lemma_splitn_len(trim_end_spec(line), 4, '\t');
     lemma_splitn_len(trim_end_spec(line), 5, '\t');
+}
+
+/// WHAT HAPPENS TO LINES THAT ARE NOT RECORDS.  An empty line, a whitespace-only line, and any line without a tab
+/// (`#comment`, `track type=bedGraph ...`, `browser position ...` as usually written, or a space-separated BED
+/// line) is ONE column: it is refused as "Missing start" -- it is not skipped and it does not end the input.
+proof fn lemma_line_without_a_tab_is_refused(line: Seq<char>)
+    requires !has_sep(trim_end_spec(line), '\t'),
+    ensures
+        
+        bed_bad(line) == Some(k_missing_start()), bg_bad(line) == Some(k_missing_start()),
+        bed_line_item(line) == ItemView::<EntryView>::Refused(k_missing_start()),
+        bg_line_item(line) == ItemView::<Value>::Refused(k_missing_start()),
+{
+    lemma_splitn_no_sep(trim_end_spec(line), 4, '\t');
+    lemma_splitn_no_sep(trim_end_spec(line), 5, '\t');
+}
+/// a line that starts with a tab has an empty chromosome name; it is still a line (parsed, not the end of input)
+proof fn lemma_tab_leading_line_has_empty_chrom(line: Seq<char>)
+    requires trim_end_spec(line).len() > 0, trim_end_spec(line)[0] == '\t',
+    ensures
+        
+        bed_cols(line)[0].len() == 0, bg_cols(line)[0].len() == 0,
+{
+    lemma_splitn_leading_sep(trim_end_spec(line), 4, '\t');
+    lemma_splitn_leading_sep(trim_end_spec(line), 5, '\t');
 }
 
 // ================= (1) parse_bed / parse_bedgraph =================
